@@ -261,6 +261,136 @@ class Real:
         return flatten(s.run(expr, context=run_arg))
 
 
+# ---- jobs created after their parent concluded ---------------------------------------------
+# holder "fork": the parent job returns fork_thread(<staged expr>) and is resolved; the staged
+#                expression keeps evaluating under it.
+# holder "fail": the parent job returns [boom(), <staged expr>]; boom() rejects it while the staged
+#                expression is still waiting; the failure is caught one level up.
+# stage  "cond": cond(slow(sid), <late>, "not-taken")      stage "seq": seq([slow(sid), <late>])
+# slow(sid) is held (threading.Event) until a task that can only run after the parent concluded has
+# started, so <late> = record(sid, node-subtree) is created under a concluded parent, deterministically.
+_LATE = None
+_EVENTS: dict = {}
+_OBS: dict = {}
+HOLDERS = ("fork", "fail")
+STAGES = ("cond", "seq")
+LATE_WAIT = 30
+
+
+def _ev(name):
+    import threading
+    return _EVENTS.setdefault(name, threading.Event())
+
+
+def late_tasks():
+    global _LATE
+    if _LATE is None:
+        from redun import catch, cond, task
+        from redun.functools import seq
+        from redun.scheduler import fork_thread, join_thread
+        node = node_task()
+
+        @task(namespace="rv_c26", name="slow", cache=False)
+        def slow(sid):
+            assert _ev(sid + ":concluded").wait(LATE_WAIT), "the holder job never concluded"
+            return True
+
+        @task(namespace="rv_c26", name="record", cache=False)
+        def record(sid, res):
+            _OBS[sid] = flatten(res)
+            _ev(sid + ":recorded").set()
+            return "recorded"
+
+        def staged(sid, stage, t):
+            late = record(sid, apply_calls(node, t["calls"])(next(_UID), t["gets"], t["kids"]))
+            if stage == "cond":
+                return cond(slow(sid), late, "not-taken")
+            return seq([slow(sid), late])
+
+        @task(namespace="rv_c26", name="boom", cache=False)
+        def boom(sid):
+            raise ValueError("boom " + sid)
+
+        @task(namespace="rv_c26", name="holder_fork", cache=False)
+        def holder_fork(sid, stage, t):
+            return fork_thread(staged(sid, stage, t))
+
+        @task(namespace="rv_c26", name="take_thread", cache=False)
+        def take_thread(sid, thread):
+            _ev(sid + ":concluded").set()          # runs only once holder_fork has been resolved
+            return join_thread(thread)
+
+        @task(namespace="rv_c26", name="holder_fail", cache=False)
+        def holder_fail(sid, stage, t):
+            return [boom(sid), staged(sid, stage, t)]
+
+        @task(namespace="rv_c26", name="recover", cache=False)
+        def recover(error):
+            sid = str(error).split()[-1]
+            _ev(sid + ":concluded").set()          # runs only once holder_fail has been rejected
+            return "recovered"
+
+        @task(namespace="rv_c26", name="wait_recorded", cache=False)
+        def wait_recorded(sid):
+            return _ev(sid + ":recorded").wait(LATE_WAIT)
+
+        @task(namespace="rv_c26", name="late_main", cache=False)
+        def late_main(sid, holder, stage, p_calls, t):
+            if holder == "fork":
+                thread = apply_calls(holder_fork, p_calls)(sid, stage, t)
+                return [take_thread(sid, thread), wait_recorded(sid)]
+            h = apply_calls(holder_fail, p_calls)(sid, stage, t)
+            return [catch(h, ValueError, recover), wait_recorded(sid)]
+
+        _LATE = late_main
+    return _LATE
+
+
+def run_late(real, case):
+    """Returns the get_context results observed in the late subtree (None: it never ran)."""
+    sid = f"s{next(_UID)}"
+    s = real.sched(case["configured"])
+    expr = apply_calls(late_tasks(), case["g_calls"])(sid, case["holder"], case["stage"], case["p_calls"], case["tree"])
+    s.run(expr, context=case["run"])
+    return _OBS.pop(sid, None)
+
+
+def spec_late(case):
+    ctx = spec_merge(case["configured"], case["run"])
+    ctx = spec_merge(ctx, spec_override(case["g_calls"]))      # grand-parent (late_main)
+    ctx = spec_merge(ctx, spec_override(case["p_calls"]))      # parent (the holder, concluded)
+    return spec_tree(ctx, case["tree"])
+
+
+def late_known(case):
+    return calls_known(case["g_calls"]) or calls_known(case["p_calls"]) or tree_known(case["tree"])
+
+
+DEMO_LATE = {"configured": {}, "run": {"vars": {"root": "R", "shadow": "root-loses"}},
+             "g_calls": [[{"vars": {"mid": "M", "shadow": "mid-loses"}}, {}]],
+             "p_calls": [[{"vars": {"leaf": "L", "shadow": "leaf-wins"}}, {}]],
+             "tree": {"calls": [], "gets": [["vars.root", "<missing>"], ["vars.mid", "<missing>"], ["vars.leaf", "<missing>"],
+                                            ["vars.shadow", "<missing>"]], "kids": []}}
+
+
+def gen_late(g, rng, i):
+    keys = KEYS[:4]
+    configured = g.ctx(2, keys=keys) if rng.random() < 0.5 else {}
+    run_arg = g.ctx(3, keys=keys)
+    root = spec_merge(configured, run_arg)
+    g_calls = g.calls(True, keys) or [g.call(True, keys)]
+    p_calls = g.calls(True, keys)
+    ctx = spec_merge(spec_merge(root, spec_override(g_calls)), spec_override(p_calls))
+    t = g.tree(rng.choice([0, 1, 1, 2]), simple=True, keys=keys, root_ctx=ctx)
+    # make sure something contributed above the parent is read below it
+    go = spec_override(g_calls)
+    if go:
+        k = rng.choice(list(go.keys()))
+        t["gets"].append([k, "<missing>"])
+    return {"holder": HOLDERS[i % 2], "stage": STAGES[(i // 2) % 2], "configured": configured, "run": run_arg,
+            "g_calls": g_calls, "p_calls": p_calls, "tree": t}
+
+
 def real_override(calls):
     t = apply_calls(node_task(), calls)
     return t._task_options_override.get("_context_override", {})
@@ -275,7 +405,9 @@ class Check(PropertyCheck):
                 "C26_nary_refuted", "C26_merge3_shipped_partial", "C26_get_context_spec", "C26_path_exclusive",
                 "C26_path_functional", "C26_split_spec", "C26_tree_refuted", "C26_tree_holds_fixed",
                 "C26_tree_holds_fixed_uc", "C26_tree_shipped_partial", "C26_job_context_fixed",
-                "C26_job_context_fixed_uc", "C26_job_context_shipped_partial", "C26_nonvacuous"]
+                "C26_job_context_fixed_uc", "C26_job_context_shipped_partial", "C26_late_context_any_flags",
+                "C26_late_context_fixed", "C26_late_context_fixed_uc", "C26_late_context_shipped_partial",
+                "C26_late_dropping_refuted", "C26_nonvacuous"]
     extra_modules = ["Base.Lit"]
     allowed_axioms = []
     assumptions = [
@@ -283,6 +415,9 @@ class Check(PropertyCheck):
         "str.split('.') commutes with encoding (re-tested by the correspondence cases with non-ASCII keys)",
         "every non-dict value (list, number, str, None, ...) is opaque to merge_dicts/get_context_value; context values are "
         "concrete (no lazy expressions inside the context)",
+        "late-created jobs: the model's 'concluded' flag of an ancestor stands for Job.clear() having run (memoised context "
+        "dropped, recomputed from parent_job); which attributes clear() resets is extracted by the translator, the "
+        "fork_thread / rejected-parent programs are ordered with threading.Event and run on the default thread executor",
         "job trees are run with distinct arguments per job, so call caching/CSE (property C05) does not interfere",
         "the extra redun.root_task job and default-argument evaluation (JobEnv) are covered by the job-tree correspondence "
         "run under the real scheduler, not by the translator",
@@ -297,10 +432,12 @@ class Check(PropertyCheck):
 
     def translate(self):
         try:
-            text, _, name = tr_context.translate(pins=PINS)
+            text, _, info = tr_context.translate(pins=PINS)
         except astutil.TranslateError as e:
             raise TranslateError(str(e))
-        self.variant = name
+        self.variant = info["name"]
+        self.record = info["record"]
+        self.witness_expected = info["witness_expected"]
         GEN.mkdir(exist_ok=True)
         p = GEN / "C26Gen.v"
         p.write_text(text)
@@ -308,11 +445,29 @@ class Check(PropertyCheck):
 
     # the configuration the model is run with: what the translator found; if it found none of the
     # three known ones (or failed), the shipped one (mismatches then show up as broken obligations)
+    record = None
+    witness_expected = None
+
     def cfg(self):
-        return self.variant or "shipped"
+        """Coq term: exactly the configuration the translator extracted (so the model is run as the code
+        is written, whether or not that is a configuration the theorems are about)."""
+        if self.record:
+            return self.record
+        return "fixed" if self.fallback_variant() == "Fixed" else "shipped"
+
+    def cfg_name(self):
+        return self.variant or ("extracted, not one of shipped/fixed/fixed_uc" if self.record else "translator failed; fallback")
+
+    def fallback_variant(self):
+        try:
+            return tr_context.tr_merge_dicts(astutil.load("redun/utils.py"))
+        except Exception:
+            return "Fixed"
 
     def merge_variant(self):
-        return "Fixed" if self.cfg() == "fixed" else "AsShipped"
+        if self.record:
+            return "Fixed" if "merge_variant := Fixed" in self.record else "AsShipped"
+        return self.fallback_variant()
 
     # ------------------------------------------------------------------ correspondence
     def correspond(self):
@@ -372,13 +527,31 @@ class Check(PropertyCheck):
                 self.count(("t", json.dumps([configured, run_arg, t])) if tree_size(t) >= 2 else None)
                 self.stat("tree_jobs", tree_size(t))
                 self.sample({"op": "job_tree", "jobs": tree_size(t), "results": json.dumps(got)[:160]}, 6)
+            # (e) jobs created after their parent concluded (fork_thread / rejected parent, cond / seq)
+            n_late = 8 if quick else 80
+            for i in range(n_late):
+                case = gen_late(g, self.rng, i)
+                got = run_late(real, case)
+                mt = self.with_probes(case["tree"])
+                chain = cq_list([f"(true, {cq_list([cq_call(c) for c in case['p_calls']])})",
+                                 f"(false, {cq_list([cq_call(c) for c in case['g_calls']])})"])
+                exp = "None" if got is None else f"(Some {cq_list([cq_val(x) for x in got])})"
+                terms.append(f"opt_eq (list_eq value_eqb) (late_results cfg {cq_val(case['configured'])} {cq_val(case['run'])} "
+                             f"{chain} {cq_tree(mt)}) {exp}")
+                descr.append(("late_job", json.dumps(case)))
+                self.count(("l", json.dumps(case)))
+                self.stat("late_scenario", case["holder"] + "/" + case["stage"])
         finally:
             real.close()
-        pre = f"Definition cfg : ctx_cfg := {self.cfg()}.\n"
+        pre = (f"Definition cfg : ctx_cfg := {self.cfg()}.\n"
+               "Definition late_results (c : ctx_cfg) (configured run_arg : value) (chain : list (bool * list uc_call)) "
+               "(t : jtree) : option (list value) :=\n"
+               "  match exec_context c configured run_arg with None => None | Some root =>\n"
+               "  match late_context c root chain with None => None | Some p => run_tree c p t end end.\n")
         ok, failing, diags = run_bool_cases("C26", ["Base.Decimal", "Base.Lit", "Model.Context"], pre, terms, chunk=150)
         self.ob("correspondence",
-                f"model ({self.cfg()}) == implementation on {len(terms)} generated cases: {n_merge} merge_dicts, {n_get} "
-                f"get_context_value, {n_uc} update_context chains, {n_tree} job trees run under the real Scheduler",
+                f"model ({self.cfg_name()}) == implementation on {len(terms)} generated cases: {n_merge} merge_dicts, {n_get} "
+                f"get_context_value, {n_uc} update_context chains, {n_tree} job trees and {n_late} late-created subtrees (parent already concluded) run under the real Scheduler",
                 ok and not failing, "\n".join(diags) + "".join(f"\nmismatch: {descr[i]}" for i in failing[:10]))
         self.mismatches = [descr[i] for i in failing]
 
@@ -415,6 +588,16 @@ class Check(PropertyCheck):
             return f"get_context results {got!r}, documented {exp!r}"
         return None
 
+    def check_late(self, real, case):
+        got = run_late(real, case)
+        exp = spec_late(case)
+        if got is None:
+            return "the late subtree never ran"
+        if [canon(x) for x in got] != [canon(x) for x in exp]:
+            return (f"job created under an already concluded parent ({case['holder']}, {case['stage']}): get_context results "
+                    f"{got!r}, documented {exp!r}")
+        return None
+
     def add(self, key, what, replay):
         self.findings.append(Finding(key[:300], what, replay))
 
@@ -444,10 +627,10 @@ class Check(PropertyCheck):
                          "get_context('b.a', 0) is 0, the documented merge gives 1 (3-ary merge_dicts: an earlier "
                          "non-mapping value stops context and kwargs from merging)",
                          {"kind": "tree", "configured": {}, "run": {}, "tree": w_tree, "why": why})
-            expect = self.cfg() == "shipped"
+            expect = self.witness_expected if self.witness_expected is not None else (self.fallback_variant() == "AsShipped")
             self.ob("oracle", "the witness of C26_tree_refuted " + ("reproduces on the code (shipped variant)" if expect else
                     "no longer reproduces (repaired variant)"), reproduced == expect,
-                    f"translator says {self.cfg()}, witness reproduces: {reproduced}")
+                    f"translator says {self.cfg_name()}, witness reproduces: {reproduced}")
             # 2. small scope: all pairs over a small family of nested dicts / all paths of length <= 3
             small = self.small_values()
             for a, b in itertools.product(small, repeat=2):
@@ -494,6 +677,16 @@ class Check(PropertyCheck):
                 if why:
                     key = KNOWN_KEY if tree_known(t) else f"tree:{json.dumps([configured, run_arg, t])}"
                     self.add(key, why, {"kind": "tree", "configured": configured, "run": run_arg, "tree": t, "why": why})
+            # 4. jobs created after their parent concluded, overrides at grand-parent / parent / leaf level
+            late_cases = [dict(DEMO_LATE, holder=h, stage=st) for h in HOLDERS for st in STAGES]
+            late_cases += [gen_late(g, self.rng, i) for i in range(8 if quick else 120)]
+            for case in late_cases:
+                n += 1
+                why = self.check_late(real, case)
+                self.stat("oracle_late", case["holder"] + "/" + case["stage"])
+                if why:
+                    key = KNOWN_KEY if late_known(case) else f"late:{case['holder']}/{case['stage']}:{json.dumps(case)}"
+                    self.add(key, why, dict(case, kind="late", why=why))
         finally:
             real.close()
         self.evaluations += n
@@ -523,10 +716,13 @@ class Check(PropertyCheck):
             why = self.check_calls(r["calls"])
         elif kind == "tree":
             why = self.check_tree(real, r["configured"], r["run"], r["tree"])
+        elif kind == "late":
+            why = self.check_late(real, r)
         else:
             return None
         if why and record:
-            known = (kind == "calls" and calls_known(r["calls"])) or (kind == "tree" and tree_known(r["tree"]))
+            known = ((kind == "calls" and calls_known(r["calls"])) or (kind == "tree" and tree_known(r["tree"]))
+                     or (kind == "late" and late_known(r)))
             self.add(KNOWN_KEY if known else f"corpus:{json.dumps(r)[:200]}", why, dict(r, why=why))
         return why
 
